@@ -111,6 +111,9 @@ EDITS = {
         ("uv02", RT + "vm.rs", "                        *upv = UpValue::Closed(ov_raw.to_vec(), is_closure);\n                        is_closure.then_some(ov_raw[0])", "                        *upv = UpValue::Closed(ov_raw.to_vec(), is_closure);\n                        Some(ov_raw[0])", "verus", "upvalues"),
         ("uv03", RT + "vm.rs", "                        UpValue::Closed(data, true) => Some(data[0]),", "                        UpValue::Closed(data, _) => Some(data[0]),", "verus", "upvalues"),
         ("uv04", RT + "vm.rs", "                        *upv = UpValue::Closed(ov_raw.to_vec(), is_closure);", "                        *upv = UpValue::Closed(ov_raw.to_vec(), false);", "verus", "upvalues"),
+        ("rc09", "crates/lib/mimium-lang/src/compiler/mirgen.rs", "                    if !named && counted {", "                    if named && counted {", "verus", "mirgen_rc"),
+        ("rc10", "crates/lib/mimium-lang/src/compiler/mirgen.rs", "                            tuple_offset: offset as u64,\n                        });\n                        self.insert_clone_recursively(elem_v, field.ty);", "                            tuple_offset: 0,\n                        });\n                        self.insert_clone_recursively(elem_v, field.ty);", "verus", "mirgen_rc"),
+        ("rc11", "crates/lib/mimium-lang/src/compiler/mirgen.rs", "                        self.insert_clone_recursively(elem_v.clone(), elem_t);\n", "", "verus", "mirgen_rc"),
         ("rc07", "crates/lib/mimium-lang/src/compiler/mirgen.rs", "                        tuple_offset: i as u64,", "                        tuple_offset: 0,", "verus", "mirgen_rc"),
         ("rc08", "crates/lib/mimium-lang/src/compiler/mirgen.rs", "                    self.insert_release_recursively(field_v, field.ty);", "                    self.insert_release_recursively(v.clone(), field.ty);", "verus", "mirgen_rc"),
         ("rc05", "crates/lib/mimium-lang/src/compiler/mirgen.rs", "                    self.insert_clone_recursively(elem_v.clone(), *cty);\n", "", "verus", "mirgen_rc"),
